@@ -1,0 +1,483 @@
+//go:build verif
+
+package trieutils
+
+// Contracts for gocv (contract-based deductive verification, /verif).
+
+// ---- BitArray: a bit string of length len <= 255 held in four 64-bit words -------------------------
+// Abstract view: val(b) is the 256-bit number words[3]‖words[2]‖words[1]‖words[0]; the
+// representation invariant wf(b) says that no bit at or above position len is set.
+//@ pure func val(b *BitArray) bv256 = concat(b.words[3], b.words[2], b.words[1], b.words[0])
+//@ pure func wf(b *BitArray) bool = val(b) >> b.len == bv(0, 256)
+//@ pure func ones(n uint8) bv256 = (bv(1, 256) << n) - bv(1, 256)
+
+//@ func (*BitArray).Set
+//@   props C01
+//@   arith bv
+//@   requires b != nil && x != nil
+//@   modifies b.len, b.words
+//@   ensures same: result == b && val(b) == old(val(x)) && b.len == old(x.len)
+
+//@ func (*BitArray).clear
+//@   props C01
+//@   arith bv
+//@   requires b != nil
+//@   modifies b.len, b.words
+//@   ensures zero: result == b && val(b) == bv(0, 256) && b.len == 0
+
+// Bits at or above len are cleared, the others kept.
+//@ func (*BitArray).truncateToLength
+//@   props C01
+//@   arith bv
+//@   requires b != nil
+//@   modifies b.words
+//@   ensures masked: val(b) == old(val(b)) & ones(b.len)
+//@   ensures wf: wf(b)
+
+//@ func (*BitArray).rsh64
+//@   props C01
+//@   arith bv
+//@   requires b != nil && x != nil
+//@   modifies b.words
+//@   ensures val(b) == old(val(x)) >> 64
+//@ func (*BitArray).rsh128
+//@   props C01
+//@   arith bv
+//@   requires b != nil && x != nil
+//@   modifies b.words
+//@   ensures val(b) == old(val(x)) >> 128
+//@ func (*BitArray).rsh192
+//@   props C01
+//@   arith bv
+//@   requires b != nil && x != nil
+//@   modifies b.words
+//@   ensures val(b) == old(val(x)) >> 192
+//@ func (*BitArray).lsh64
+//@   props C01
+//@   arith bv
+//@   requires b != nil && x != nil
+//@   modifies b.words
+//@   ensures val(b) == old(val(x)) << 64
+//@ func (*BitArray).lsh128
+//@   props C01
+//@   arith bv
+//@   requires b != nil && x != nil
+//@   modifies b.words
+//@   ensures val(b) == old(val(x)) << 128
+//@ func (*BitArray).lsh192
+//@   props C01
+//@   arith bv
+//@   requires b != nil && x != nil
+//@   modifies b.words
+//@   ensures val(b) == old(val(x)) << 192
+
+// x >> n: the n least significant bits are dropped; the result is empty when n >= len(x).
+//@ func (*BitArray).Rsh
+//@   props C01
+//@   arith bv
+//@   requires b != nil && x != nil && wf(x)
+//@   modifies b.len, b.words
+//@   ensures result == b
+//@   ensures all: n >= old(x.len) ==> val(b) == bv(0, 256) && b.len == 0
+//@   ensures some0: n < old(x.len) && n < 64 ==> val(b) == old(val(x)) >> n && b.len == old(x.len) - n
+//@   ensures some64: n < old(x.len) && n >= 64 && n < 128 ==> val(b) == old(val(x)) >> n && b.len == old(x.len) - n
+//@   ensures some128: n < old(x.len) && n >= 128 && n < 192 ==> val(b) == old(val(x)) >> n && b.len == old(x.len) - n
+//@   ensures some192: n < old(x.len) && n >= 192 ==> val(b) == old(val(x)) >> n && b.len == old(x.len) - n
+//@   ensures wf: wf(b)
+
+// x << n: the length saturates at 255 (the bits shifted above it are dropped).
+//@ func (*BitArray).Lsh
+//@   props C01
+//@   arith bv
+//@   requires b != nil && x != nil && wf(x)
+//@   modifies b.len, b.words
+//@   ensures result == b
+//@   ensures copy: old(x.len) == 0 || n == 0 ==> val(b) == old(val(x)) && b.len == old(x.len)
+//@   ensures length: old(x.len) != 0 && n != 0 ==> b.len == ite(n > 255 - old(x.len), 255, old(x.len) + n)
+//@   ensures shifted0: old(x.len) != 0 && n != 0 && n < 64 ==> val(b) == (old(val(x)) << n) & ones(b.len)
+//@   ensures shifted64: old(x.len) != 0 && n >= 64 && n < 128 ==> val(b) == (old(val(x)) << n) & ones(b.len)
+//@   ensures shifted128: old(x.len) != 0 && n >= 128 && n < 192 ==> val(b) == (old(val(x)) << n) & ones(b.len)
+//@   ensures shifted192: old(x.len) != 0 && n >= 192 ==> val(b) == (old(val(x)) << n) & ones(b.len)
+//@   ensures exact0: old(x.len) != 0 && n != 0 && n < 64 && n <= 255 - old(x.len) ==> val(b) == old(val(x)) << n
+//@   ensures exact64: old(x.len) != 0 && n >= 64 && n <= 255 - old(x.len) ==> val(b) == old(val(x)) << n
+//@   ensures wf: wf(b)
+
+//@ func (*BitArray).Or
+//@   props C01
+//@   arith bv
+//@   requires b != nil && x != nil && y != nil
+//@   modifies b.len, b.words
+//@   ensures result == b && val(b) == old(val(x)) | old(val(y)) && b.len == old(x.len)
+//@ func (*BitArray).And
+//@   props C01
+//@   arith bv
+//@   requires b != nil && x != nil && y != nil
+//@   modifies b.len, b.words
+//@   ensures result == b && val(b) == old(val(x)) & old(val(y)) && b.len == old(x.len)
+//@ func (*BitArray).Xor
+//@   props C01
+//@   arith bv
+//@   requires b != nil && x != nil && y != nil
+//@   modifies b.words
+//@   ensures result == b && val(b) == old(val(x)) ^ old(val(y))
+
+//@ func (*BitArray).Equal
+//@   props C01
+//@   arith bv
+//@   requires b != nil && x != nil
+//@   ensures eq: result <==> (b.len == x.len && val(b) == val(x))
+
+// The n least significant bits of x (all of x when n >= len(x)).
+//@ func (*BitArray).LSBsFromLSB
+//@   props C01
+//@   arith bv
+//@   requires b != nil && x != nil
+//@   modifies b.len, b.words
+//@   ensures result == b
+//@   ensures all: n >= old(x.len) ==> val(b) == old(val(x)) && b.len == old(x.len)
+//@   ensures some: n < old(x.len) ==> val(b) == old(val(x)) & ones(n) && b.len == n
+//@   ensures wf: old(wf(x)) ==> wf(b)
+
+// x without its n most significant bits (array[n:]).
+//@ func (*BitArray).LSBs
+//@   props C01
+//@   arith bv
+//@   requires b != nil && x != nil && wf(x)
+//@   modifies b.len, b.words
+//@   ensures result == b
+//@   ensures none: n > old(x.len) ==> val(b) == bv(0, 256) && b.len == 0
+//@   ensures some: n <= old(x.len) ==> val(b) == old(val(x)) & ones(old(x.len) - n) && b.len == old(x.len) - n
+//@   ensures wf: wf(b)
+
+// The n most significant bits of x (array[0:n]).
+//@ func (*BitArray).MSBs
+//@   props C01
+//@   arith bv
+//@   requires b != nil && x != nil && wf(x)
+//@   modifies b.len, b.words
+//@   ensures result == b
+//@   ensures all: n >= old(x.len) ==> val(b) == old(val(x)) && b.len == old(x.len)
+//@   ensures some: n < old(x.len) ==> val(b) == old(val(x)) >> (old(x.len) - n) && b.len == n
+//@   ensures wf: wf(b)
+
+// ---- bits --------------------------------------------------------------------------------------
+//@ func (*BitArray).BitFromLSB
+//@   props C01
+//@   arith bv
+//@   requires b != nil
+//@   ensures out: n >= b.len ==> result == 0
+//@   ensures bit: n < b.len ==> zext(result, 256) == (val(b) >> n) & bv(1, 256)
+//@ func (*BitArray).IsBitSetFromLSB
+//@   props C01
+//@   arith bv
+//@   requires b != nil
+//@   ensures result <==> (n < b.len && (val(b) >> n) & bv(1, 256) == bv(1, 256))
+// Position 0 is the most significant bit.
+//@ func (*BitArray).Bit
+//@   props C01
+//@   arith bv
+//@   requires b != nil
+//@   ensures out: n >= b.len ==> result == 0
+//@   ensures bit: n < b.len ==> zext(result, 256) == (val(b) >> (b.len - n - 1)) & bv(1, 256)
+//@ func (*BitArray).IsBitSet
+//@   props C01
+//@   arith bv
+//@   requires b != nil
+//@   ensures result <==> (n < b.len && (val(b) >> (b.len - n - 1)) & bv(1, 256) == bv(1, 256))
+//@ func (*BitArray).MSB
+//@   props C01
+//@   arith bv
+//@   requires b != nil
+//@   ensures empty: b.len == 0 ==> result == 0
+//@   ensures bit: b.len != 0 ==> zext(result, 256) == (val(b) >> (b.len - 1)) & bv(1, 256)
+//@ func (*BitArray).LSB
+//@   props C01
+//@   arith bv
+//@   requires b != nil
+//@   ensures empty: b.len == 0 ==> result == 0
+//@   ensures bit: b.len != 0 ==> zext(result, 256) == val(b) & bv(1, 256)
+//@ func (*BitArray).IsEmpty
+//@   props C01
+//@   arith bv
+//@   requires b != nil
+//@   ensures result <==> b.len == 0
+//@ func (*BitArray).Len
+//@   props C01
+//@   arith bv
+//@   requires b != nil
+//@   ensures result == b.len
+
+// ---- constructors ------------------------------------------------------------------------------
+//@ func (*BitArray).SetUint64
+//@   props C01
+//@   arith bv
+//@   requires b != nil
+//@   modifies b.len, b.words
+//@   ensures result == b && b.len == length
+//@   ensures small: length <= 64 ==> val(b) == zext(data, 256) & ones(length)
+//@   ensures wf: length <= 64 ==> wf(b)
+//@ func (*BitArray).SetBit
+//@   props C01
+//@   arith bv
+//@   requires b != nil
+//@   modifies b.len, b.words
+//@   ensures result == b && b.len == 1 && val(b) == zext(bit & 1, 256) && wf(b)
+//@ func (*BitArray).Ones
+//@   props C01
+//@   arith bv
+//@   requires b != nil
+//@   modifies b.len, b.words
+//@   ensures result == b && b.len == length && val(b) == ones(length) && wf(b)
+//@ func (*BitArray).Zeros
+//@   props C01
+//@   arith bv
+//@   requires b != nil
+//@   modifies b.len, b.words
+//@   ensures result == b && b.len == length && val(b) == bv(0, 256) && wf(b)
+//@ func (*BitArray).Copy
+//@   props C01
+//@   arith bv
+//@   requires b != nil
+//@   ensures result.len == b.len && concat(result.words[3], result.words[2], result.words[1], result.words[0]) == val(b)
+//@ func NewBitArray
+//@   props C01
+//@   arith bv
+//@   ensures result.len == length
+//@   ensures length <= 64 ==> concat(result.words[3], result.words[2], result.words[1], result.words[0]) == zext(val, 256) & ones(length)
+
+// ---- concatenation and prefixes -------------------------------------------------------------------
+// x followed by y. (When the receiver is also the second operand the left shift would overwrite
+// it before it is read: the contract excludes that call pattern, and every caller under
+// contract is checked against it.)
+//@ func (*BitArray).Append
+//@   props C01
+//@   arith bv
+//@   requires b != nil && x != nil && y != nil && wf(x) && wf(y)
+//@   requires noalias: b != y || x.len == 0 || y.len == 255 || y.len == 0
+//@   modifies b.len, b.words
+//@   ensures result == b
+//@   ensures left_empty: old(x.len) == 0 || old(y.len) == 255 ==> val(b) == old(val(y)) && b.len == old(y.len)
+//@   ensures right_empty: old(x.len) != 0 && old(y.len) == 0 ==> val(b) == old(val(x)) && b.len == old(x.len)
+//@   ensures fits: old(x.len) != 0 && old(y.len) != 0 && old(x.len) + old(y.len) <= 255 && old(y.len) <= 255 - old(x.len) ==> b.len == old(x.len) + old(y.len) && val(b) == (old(val(x)) << old(y.len)) | old(val(y))
+//@   ensures wf: old(x.len) == 0 || old(y.len) == 0 || old(y.len) <= 255 - old(x.len) ==> wf(b)
+//@ func (*BitArray).AppendBit
+//@   props C01
+//@   arith bv
+//@   requires b != nil && x != nil && wf(x)
+//@   modifies b.len, b.words
+//@   ensures result == b
+//@   ensures fits: old(x.len) != 0 && old(x.len) < 255 ==> b.len == old(x.len) + 1 && val(b) == (old(val(x)) << 1) | zext(bit & 1, 256) && wf(b)
+//@   ensures first: old(x.len) == 0 ==> b.len == 1 && val(b) == zext(bit & 1, 256) && wf(b)
+//@ func (*BitArray).AppendZeros
+//@   props C01
+//@   arith bv
+//@   requires b != nil && x != nil && wf(x)
+//@   modifies b.len, b.words
+//@   ensures result == b
+//@   ensures empty: old(x.len) == 0 ==> b.len == n && val(b) == bv(0, 256)
+//@   ensures none: old(x.len) != 0 && n == 0 ==> b.len == old(x.len) && val(b) == old(val(x))
+//@   ensures fits: old(x.len) != 0 && n != 0 && n <= 255 - old(x.len) ==> b.len == old(x.len) + n && val(b) == old(val(x)) << n
+//@   ensures wf: n <= 255 - old(x.len) ==> wf(b)
+
+// Prefix test on the shorter length.
+//@ func (*BitArray).EqualMSBs
+//@   props C01
+//@   arith bv
+//@   requires b != nil && x != nil && wf(b) && wf(x)
+//@   ensures prefix: result <==> (val(b) >> (b.len - min(b.len, x.len))) == (val(x) >> (x.len - min(b.len, x.len)))
+//@   bounded prefix: b.len <= 16 && x.len <= 16
+
+//@ extern func math/bits.LeadingZeros64
+//@   ensures result >= 0 && result <= 64
+//@   ensures x == 0 ==> result == 64
+//@   ensures x != 0 ==> (x >> (63 - uint64(result))) == 1
+
+// One past the position (from the least significant bit) of the highest set bit; 0 if none.
+//@ func findFirstSetBit
+//@   props C01
+//@   arith bv
+//@   requires b != nil && wf(b)
+//@   loop 1: invariant range: -1 <= i && i <= 3
+//@   loop 1: invariant zeros: (i < 3 ==> b.words[3] == 0) && (i < 2 ==> b.words[2] == 0) && (i < 1 ==> b.words[1] == 0) && (i < 0 ==> b.words[0] == 0)
+//@   loop 1: invariant nonempty: b.len != 0
+//@   loop 1: decreases i + 1
+//@   ensures none: b.len == 0 || val(b) == bv(0, 256) ==> result == 0
+//@   ensures some: b.len != 0 && val(b) != bv(0, 256) ==> result >= 1 && val(b) >> result == bv(0, 256) && val(b) >> (result - 1) == bv(1, 256)
+
+// The longest common prefix of x and y.
+//@ func (*BitArray).CommonMSBs
+//@   props C01
+//@   arith bv
+//@   requires b != nil && x != nil && y != nil && wf(x) && wf(y)
+//@   requires noalias: (b != x && b != y) || x.len == 0 || y.len == 0
+//@   modifies b.len, b.words
+//@   ensures result == b && wf(b)
+//@   ensures bound: b.len <= old(x.len) && b.len <= old(y.len)
+//@   ensures prefix_x: val(b) == old(val(x)) >> (old(x.len) - b.len)
+//@   ensures prefix_y: val(b) == old(val(y)) >> (old(y.len) - b.len)
+//@   ensures longest: b.len < old(x.len) && b.len < old(y.len) ==> (old(val(x)) >> (old(x.len) - b.len - 1)) != (old(val(y)) >> (old(y.len) - b.len - 1))
+// Two symbolic 256-bit shifts in one goal are beyond the solvers: these three clauses are checked
+// for operands of at most 16 bits only (a bounded stand-in, reported as such, not a proof).
+//@   bounded prefix_x: x.len <= 16 && y.len <= 16
+//@   bounded prefix_y: x.len <= 16 && y.len <= 16
+//@   bounded longest: x.len <= 16 && y.len <= 16
+
+// x[startPos:endPos], positions counted from the most significant bit.
+//@ func (*BitArray).Subset
+//@   props C01
+//@   arith bv
+//@   requires b != nil && x != nil && wf(x)
+//@   modifies b.len, b.words
+//@   ensures result == b && wf(b)
+//@   ensures empty: startPos >= endPos || startPos >= old(x.len) ==> b.len == 0 && val(b) == bv(0, 256)
+//@   ensures some: startPos < endPos && startPos < old(x.len) ==> b.len == min(endPos, old(x.len)) - startPos && val(b) == (old(val(x)) >> (old(x.len) - min(endPos, old(x.len)))) & ones(min(endPos, old(x.len)) - startPos)
+//@   bounded some: x.len <= 16
+
+// Order: by length first, then by value.
+//@ extern func math/bits.Sub64
+//@   ensures zext(result0, 65) == (zext(x, 65) - zext(y, 65) - zext(borrow, 65)) & bv(18446744073709551615, 65)
+//@   ensures (result1 == 1) <==> (zext(x, 65) < zext(y, 65) + zext(borrow, 65))
+//@   ensures result1 == 0 || result1 == 1
+//@ func (*BitArray).Cmp
+//@   props C01
+//@   arith bv
+//@   requires b != nil && x != nil
+//@   ensures less: result == -1 <==> (b.len < x.len || (b.len == x.len && val(b) < val(x)))
+//@   ensures equal: result == 0 <==> (b.len == x.len && val(b) == val(x))
+//@   ensures greater: result == 1 <==> (b.len > x.len || (b.len == x.len && val(b) > val(x)))
+
+// ---- bytes (generated by /verif/tools/gen_bitarray_bytes_contracts.py) ---------------------------
+// encoding/binary big-endian accessors: assumed contracts with their exact meaning.
+//@ extern func encoding/binary.(bigEndian).Uint16
+//@   requires len(b) >= 2
+//@   ensures result == concat(b[0], b[1])
+//@ extern func encoding/binary.(bigEndian).Uint32
+//@   requires len(b) >= 4
+//@   ensures result == concat(b[0], b[1], b[2], b[3])
+//@ extern func encoding/binary.(bigEndian).Uint64
+//@   requires len(b) >= 8
+//@   ensures result == concat(b[0], b[1], b[2], b[3], b[4], b[5], b[6], b[7])
+//@ extern func encoding/binary.(bigEndian).PutUint64
+//@   requires len(b) >= 8
+//@   modifies b[0..8]
+//@   ensures concat(b[0], b[1], b[2], b[3], b[4], b[5], b[6], b[7]) == v
+//@ func bigEndianUint40
+//@   props C01
+//@   arith bv
+//@   requires len(b) >= 5
+//@   ensures result == concat(bv(0, 24), b[0], b[1], b[2], b[3], b[4])
+//@ func bigEndianUint48
+//@   props C01
+//@   arith bv
+//@   requires len(b) >= 6
+//@   ensures result == concat(bv(0, 16), b[0], b[1], b[2], b[3], b[4], b[5])
+//@ func bigEndianUint56
+//@   props C01
+//@   arith bv
+//@   requires len(b) >= 7
+//@   ensures result == concat(bv(0, 8), b[0], b[1], b[2], b[3], b[4], b[5], b[6])
+//@ func (*BitArray).setBytes32
+//@   props C01
+//@   arith bv
+//@   requires b != nil && len(data) >= 32
+//@   modifies b.words
+//@   ensures val(b) == concat(data[0], data[1], data[2], data[3], data[4], data[5], data[6], data[7], data[8], data[9], data[10], data[11], data[12], data[13], data[14], data[15], data[16], data[17], data[18], data[19], data[20], data[21], data[22], data[23], data[24], data[25], data[26], data[27], data[28], data[29], data[30], data[31])
+//@ func (*BitArray).writeBytesTo
+//@   props C01
+//@   arith bv
+//@   requires b != nil && len(dst) >= 32
+//@   modifies dst[0..32]
+//@   ensures concat(dst[0], dst[1], dst[2], dst[3], dst[4], dst[5], dst[6], dst[7], dst[8], dst[9], dst[10], dst[11], dst[12], dst[13], dst[14], dst[15], dst[16], dst[17], dst[18], dst[19], dst[20], dst[21], dst[22], dst[23], dst[24], dst[25], dst[26], dst[27], dst[28], dst[29], dst[30], dst[31]) == old(val(b))
+//@ func (*BitArray).BytesTo
+//@   props C01
+//@   arith bv
+//@   requires b != nil && len(dst) >= 32
+//@   modifies dst[0..32]
+//@   ensures concat(dst[0], dst[1], dst[2], dst[3], dst[4], dst[5], dst[6], dst[7], dst[8], dst[9], dst[10], dst[11], dst[12], dst[13], dst[14], dst[15], dst[16], dst[17], dst[18], dst[19], dst[20], dst[21], dst[22], dst[23], dst[24], dst[25], dst[26], dst[27], dst[28], dst[29], dst[30], dst[31]) == old(val(b))
+// Big-endian bytes of the value.
+//@ func (*BitArray).Bytes
+//@   props C01
+//@   arith bv
+//@   requires b != nil
+//@   ensures concat(result[0], result[1], result[2], result[3], result[4], result[5], result[6], result[7], result[8], result[9], result[10], result[11], result[12], result[13], result[14], result[15], result[16], result[17], result[18], result[19], result[20], result[21], result[22], result[23], result[24], result[25], result[26], result[27], result[28], result[29], result[30], result[31]) == val(b)
+//@ func (*BitArray).activeBytes
+//@   props C01
+//@   arith bv
+//@   requires b != nil
+//@   ensures result == (zext(b.len, 64) + 7) / 8 && result <= 32
+// SetBytes: the big-endian number in data (its first 32 bytes), cut to `length` bits.
+//@ func (*BitArray).SetBytes
+//@   props C01
+//@   arith bv
+//@   requires b != nil
+//@   modifies b.len, b.words
+//@   ensures result == b && b.len == length && wf(b)
+//@   ensures len0: len(data) == 0 ==> val(b) == bv(0, 256)
+//@   ensures len1: len(data) == 1 ==> val(b) == concat(bv(0, 248), data[0]) & ones(length)
+//@   ensures len2: len(data) == 2 ==> val(b) == concat(bv(0, 240), data[0], data[1]) & ones(length)
+//@   ensures len3: len(data) == 3 ==> val(b) == concat(bv(0, 232), data[0], data[1], data[2]) & ones(length)
+//@   ensures len4: len(data) == 4 ==> val(b) == concat(bv(0, 224), data[0], data[1], data[2], data[3]) & ones(length)
+//@   ensures len5: len(data) == 5 ==> val(b) == concat(bv(0, 216), data[0], data[1], data[2], data[3], data[4]) & ones(length)
+//@   ensures len6: len(data) == 6 ==> val(b) == concat(bv(0, 208), data[0], data[1], data[2], data[3], data[4], data[5]) & ones(length)
+//@   ensures len7: len(data) == 7 ==> val(b) == concat(bv(0, 200), data[0], data[1], data[2], data[3], data[4], data[5], data[6]) & ones(length)
+//@   ensures len8: len(data) == 8 ==> val(b) == concat(bv(0, 192), data[0], data[1], data[2], data[3], data[4], data[5], data[6], data[7]) & ones(length)
+//@   ensures len9: len(data) == 9 ==> val(b) == concat(bv(0, 184), data[0], data[1], data[2], data[3], data[4], data[5], data[6], data[7], data[8]) & ones(length)
+//@   ensures len10: len(data) == 10 ==> val(b) == concat(bv(0, 176), data[0], data[1], data[2], data[3], data[4], data[5], data[6], data[7], data[8], data[9]) & ones(length)
+//@   ensures len11: len(data) == 11 ==> val(b) == concat(bv(0, 168), data[0], data[1], data[2], data[3], data[4], data[5], data[6], data[7], data[8], data[9], data[10]) & ones(length)
+//@   ensures len12: len(data) == 12 ==> val(b) == concat(bv(0, 160), data[0], data[1], data[2], data[3], data[4], data[5], data[6], data[7], data[8], data[9], data[10], data[11]) & ones(length)
+//@   ensures len13: len(data) == 13 ==> val(b) == concat(bv(0, 152), data[0], data[1], data[2], data[3], data[4], data[5], data[6], data[7], data[8], data[9], data[10], data[11], data[12]) & ones(length)
+//@   ensures len14: len(data) == 14 ==> val(b) == concat(bv(0, 144), data[0], data[1], data[2], data[3], data[4], data[5], data[6], data[7], data[8], data[9], data[10], data[11], data[12], data[13]) & ones(length)
+//@   ensures len15: len(data) == 15 ==> val(b) == concat(bv(0, 136), data[0], data[1], data[2], data[3], data[4], data[5], data[6], data[7], data[8], data[9], data[10], data[11], data[12], data[13], data[14]) & ones(length)
+//@   ensures len16: len(data) == 16 ==> val(b) == concat(bv(0, 128), data[0], data[1], data[2], data[3], data[4], data[5], data[6], data[7], data[8], data[9], data[10], data[11], data[12], data[13], data[14], data[15]) & ones(length)
+//@   ensures len17: len(data) == 17 ==> val(b) == concat(bv(0, 120), data[0], data[1], data[2], data[3], data[4], data[5], data[6], data[7], data[8], data[9], data[10], data[11], data[12], data[13], data[14], data[15], data[16]) & ones(length)
+//@   ensures len18: len(data) == 18 ==> val(b) == concat(bv(0, 112), data[0], data[1], data[2], data[3], data[4], data[5], data[6], data[7], data[8], data[9], data[10], data[11], data[12], data[13], data[14], data[15], data[16], data[17]) & ones(length)
+//@   ensures len19: len(data) == 19 ==> val(b) == concat(bv(0, 104), data[0], data[1], data[2], data[3], data[4], data[5], data[6], data[7], data[8], data[9], data[10], data[11], data[12], data[13], data[14], data[15], data[16], data[17], data[18]) & ones(length)
+//@   ensures len20: len(data) == 20 ==> val(b) == concat(bv(0, 96), data[0], data[1], data[2], data[3], data[4], data[5], data[6], data[7], data[8], data[9], data[10], data[11], data[12], data[13], data[14], data[15], data[16], data[17], data[18], data[19]) & ones(length)
+//@   ensures len21: len(data) == 21 ==> val(b) == concat(bv(0, 88), data[0], data[1], data[2], data[3], data[4], data[5], data[6], data[7], data[8], data[9], data[10], data[11], data[12], data[13], data[14], data[15], data[16], data[17], data[18], data[19], data[20]) & ones(length)
+//@   ensures len22: len(data) == 22 ==> val(b) == concat(bv(0, 80), data[0], data[1], data[2], data[3], data[4], data[5], data[6], data[7], data[8], data[9], data[10], data[11], data[12], data[13], data[14], data[15], data[16], data[17], data[18], data[19], data[20], data[21]) & ones(length)
+//@   ensures len23: len(data) == 23 ==> val(b) == concat(bv(0, 72), data[0], data[1], data[2], data[3], data[4], data[5], data[6], data[7], data[8], data[9], data[10], data[11], data[12], data[13], data[14], data[15], data[16], data[17], data[18], data[19], data[20], data[21], data[22]) & ones(length)
+//@   ensures len24: len(data) == 24 ==> val(b) == concat(bv(0, 64), data[0], data[1], data[2], data[3], data[4], data[5], data[6], data[7], data[8], data[9], data[10], data[11], data[12], data[13], data[14], data[15], data[16], data[17], data[18], data[19], data[20], data[21], data[22], data[23]) & ones(length)
+//@   ensures len25: len(data) == 25 ==> val(b) == concat(bv(0, 56), data[0], data[1], data[2], data[3], data[4], data[5], data[6], data[7], data[8], data[9], data[10], data[11], data[12], data[13], data[14], data[15], data[16], data[17], data[18], data[19], data[20], data[21], data[22], data[23], data[24]) & ones(length)
+//@   ensures len26: len(data) == 26 ==> val(b) == concat(bv(0, 48), data[0], data[1], data[2], data[3], data[4], data[5], data[6], data[7], data[8], data[9], data[10], data[11], data[12], data[13], data[14], data[15], data[16], data[17], data[18], data[19], data[20], data[21], data[22], data[23], data[24], data[25]) & ones(length)
+//@   ensures len27: len(data) == 27 ==> val(b) == concat(bv(0, 40), data[0], data[1], data[2], data[3], data[4], data[5], data[6], data[7], data[8], data[9], data[10], data[11], data[12], data[13], data[14], data[15], data[16], data[17], data[18], data[19], data[20], data[21], data[22], data[23], data[24], data[25], data[26]) & ones(length)
+//@   ensures len28: len(data) == 28 ==> val(b) == concat(bv(0, 32), data[0], data[1], data[2], data[3], data[4], data[5], data[6], data[7], data[8], data[9], data[10], data[11], data[12], data[13], data[14], data[15], data[16], data[17], data[18], data[19], data[20], data[21], data[22], data[23], data[24], data[25], data[26], data[27]) & ones(length)
+//@   ensures len29: len(data) == 29 ==> val(b) == concat(bv(0, 24), data[0], data[1], data[2], data[3], data[4], data[5], data[6], data[7], data[8], data[9], data[10], data[11], data[12], data[13], data[14], data[15], data[16], data[17], data[18], data[19], data[20], data[21], data[22], data[23], data[24], data[25], data[26], data[27], data[28]) & ones(length)
+//@   ensures len30: len(data) == 30 ==> val(b) == concat(bv(0, 16), data[0], data[1], data[2], data[3], data[4], data[5], data[6], data[7], data[8], data[9], data[10], data[11], data[12], data[13], data[14], data[15], data[16], data[17], data[18], data[19], data[20], data[21], data[22], data[23], data[24], data[25], data[26], data[27], data[28], data[29]) & ones(length)
+//@   ensures len31: len(data) == 31 ==> val(b) == concat(bv(0, 8), data[0], data[1], data[2], data[3], data[4], data[5], data[6], data[7], data[8], data[9], data[10], data[11], data[12], data[13], data[14], data[15], data[16], data[17], data[18], data[19], data[20], data[21], data[22], data[23], data[24], data[25], data[26], data[27], data[28], data[29], data[30]) & ones(length)
+//@   ensures len32: len(data) >= 32 ==> val(b) == concat(data[0], data[1], data[2], data[3], data[4], data[5], data[6], data[7], data[8], data[9], data[10], data[11], data[12], data[13], data[14], data[15], data[16], data[17], data[18], data[19], data[20], data[21], data[22], data[23], data[24], data[25], data[26], data[27], data[28], data[29], data[30], data[31]) & ones(length)
+// UnmarshalBinary (trie2 format): the LAST byte is the length in bits, before it at most
+// ceil(length/8) big-endian bytes. Only the framing is under contract (see core/trie).
+//@ func (*BitArray).UnmarshalBinary
+//@   props C01
+//@   arith int
+//@   requires b != nil
+//@   modifies b.len, b.words
+//@   ensures short: (len(data) == 0 || len(data) > (int(data[len(data) - 1]) + 7) / 8 + 1) <==> result != nil
+//@   ensures untouched: result != nil ==> b.len == old(b.len) && b.words[0] == old(b.words[0]) && b.words[1] == old(b.words[1]) && b.words[2] == old(b.words[2]) && b.words[3] == old(b.words[3])
+//@   ensures length: result == nil ==> b.len == data[len(data) - 1]
+
+// ---- felts -------------------------------------------------------------------------------------
+// A felt enters a BitArray through its 32 big-endian bytes; feltVal is that 256-bit number.
+//@ opaque type github.com/NethermindEth/juno/core/felt.Felt
+//@ ghost func feltVal(f _) bv256
+//@ extern func github.com/NethermindEth/juno/core/felt.(*Felt).Bytes
+//@   ensures concat(result[0], result[1], result[2], result[3], result[4], result[5], result[6], result[7], result[8], result[9], result[10], result[11], result[12], result[13], result[14], result[15], result[16], result[17], result[18], result[19], result[20], result[21], result[22], result[23], result[24], result[25], result[26], result[27], result[28], result[29], result[30], result[31]) == feltVal(*z)
+//@ func (*BitArray).setFelt
+//@   props C01
+//@   arith bv
+//@   requires b != nil && f != nil
+//@   modifies b.words
+//@   ensures val(b) == feltVal(*f)
+//@ func (*BitArray).SetFelt
+//@   props C01
+//@   arith bv
+//@   requires b != nil && f != nil
+//@   modifies b.len, b.words
+//@   ensures result == b && b.len == length && val(b) == feltVal(*f) & ones(length) && wf(b)
+//@ func (*BitArray).SetFelt251
+//@   props C01
+//@   arith bv
+//@   requires b != nil && f != nil
+//@   modifies b.len, b.words
+//@   ensures result == b && b.len == 251 && val(b) == feltVal(*f) & ones(251) && wf(b)
+
